@@ -428,7 +428,7 @@ func runE2EInner(c *E2ECase, res *E2EResult) {
 	repo := newRepo(reg)
 	repo.SkipReferrersGC = c.SkipGC
 	sched := common.NewRand(c.Seed)
-	res.Caps = append(res.Caps, remote.VerifReferrersState(repo))
+	res.Caps = append(res.Caps, remote.VerifReferrersStateC14(repo))
 	faults := 0
 	dpos := 0
 	cpos := 0
@@ -580,7 +580,7 @@ func runE2EInner(c *E2ECase, res *E2EResult) {
 			g.remove(pick)
 			pick.release <- fakereg14.Decision{Fail: fail, Status: 500}
 			synctest.Wait()
-			ev.Cap = remote.VerifReferrersState(repo)
+			ev.Cap = remote.VerifReferrersStateC14(repo)
 			res.Caps = append(res.Caps, ev.Cap)
 			res.Events = append(res.Events, ev)
 			res.Decisions = append(res.Decisions, Dec{Op: ev.Op, Class: cl, Fail: fail})
@@ -641,7 +641,7 @@ func runE2EInner(c *E2ECase, res *E2EResult) {
 			res.Filtered = append(res.Filtered, list(repo, s, res.FilterType))
 		}
 	}
-	res.Caps = append(res.Caps, remote.VerifReferrersState(repo))
+	res.Caps = append(res.Caps, remote.VerifReferrersStateC14(repo))
 	stored := reg.Manifests(repoName)
 	tg := reg.Tags(repoName)
 	res.Live = make([]bool, len(c.Mans))
